@@ -352,16 +352,47 @@ theorem pv_array (M : Matcher) (defined : List Int) (vo : Option ItemC) (rules :
         simp [arrayFC, wrapArray, setRequired, pvField, fieldHas, he, optAll, evalOpt, ofBool, evalRepeated, hne']
 
 
+def mapFC (vo : Option ItemC) (rules : Option MapRules) (req : Bool) : Option FieldC :=
+  if req then setRequired (wrapMap vo rules) else wrapMap vo rules
+
+theorem pv_map (M : Matcher) (defined : List Int) (vo : Option ItemC) (rules : Option MapRules)
+    (req : Bool) (xs : List Scalar) :
+    pvField M defined (mapFC vo rules req) false (.list xs) =
+      ofBool ((!req || !xs.isEmpty) &&
+        optAll rules (fun r =>
+          optAll r.minPairs (fun n => decide (n ≤ xs.length)) &&
+          optAll r.maxPairs (fun n => decide (xs.length ≤ n))) &&
+        xs.all (evalOpt M defined vo)) := by
+  cases rules with
+  | none =>
+    cases vo with
+    | none =>
+      cases req <;> cases he : xs.isEmpty <;>
+        simp [mapFC, wrapMap, setRequired, pvField, fieldHas, he, optAll, evalOpt, ofBool]
+    | some ic =>
+      cases req <;> cases he : xs.isEmpty <;>
+        simp [mapFC, wrapMap, setRequired, pvField, fieldHas, he, optAll, evalOpt, ofBool, evalMap]
+  | some r =>
+    cases vo with
+    | none =>
+      cases req <;> cases he : xs.isEmpty <;>
+        simp [mapFC, wrapMap, setRequired, pvField, fieldHas, he, optAll, evalOpt, ofBool, evalMap]
+    | some ic =>
+      cases req <;> cases he : xs.isEmpty <;>
+        simp [mapFC, wrapMap, setRequired, pvField, fieldHas, he, optAll, evalOpt, ofBool, evalMap]
+
 theorem fieldValidate_eq (schema : FieldSchema) (v : Option ItemC) (req : Bool) :
     fieldValidate schema v req =
       match schema with
       | .single _ => singleFC v req
-      | .array _ rules _ => arrayFC v rules req := by
+      | .array _ rules _ => arrayFC v rules req
+      | .map _ rules _ => mapFC v rules req := by
   cases schema <;> cases req <;> rfl
 
-theorem primaryKey_eq (p : Property) : p.primaryKey = schemaPrimary p.schema.item := by
+theorem primaryKey_eq (p : Property) :
+    p.primaryKey = (!p.schema.isMap && schemaPrimary p.schema.item) := by
   unfold Property.primaryKey schemaPrimary
-  rfl
+  cases p.schema <;> rfl
 
 /-- the emitted constraint in closed form -/
 theorem compileRules_eq (p : Property) (a : ItemAnnot) (ha : buildField p.schema.item = .ok a)
@@ -369,8 +400,9 @@ theorem compileRules_eq (p : Property) (a : ItemAnnot) (ha : buildField p.schema
     (hnot : (p.explicitlyOptional && p.effRequired) = false) :
     compileRules p = .ok (match p.schema with
       | .single _ => singleFC a.validate p.effRequired
-      | .array _ rules _ => arrayFC a.validate rules p.effRequired) := by
-  have hreq : (p.required || psmPrimaryKey a.psmKey) = p.effRequired := by
+      | .array _ rules _ => arrayFC a.validate rules p.effRequired
+      | .map _ rules _ => mapFC a.validate rules p.effRequired) := by
+  have hreq : (p.required || (!p.schema.isMap && psmPrimaryKey a.psmKey)) = p.effRequired := by
     rw [hprim, ← primaryKey_eq]; rfl
   simp only [compileRules, writeField, ha, hreq, hnot, fieldValidate_eq]
   rfl
